@@ -142,10 +142,10 @@ func recOf(ctx context.Context) *recorder {
 
 // visit records one execution of the node at path with the payloads it decoded, after a
 // seeded number of yields (schedule perturbation for the concurrent calls).
-func visit(ctx context.Context, path string, ids []int) {
+func visit(ctx context.Context, path string, ids []int) error {
 	r := recOf(ctx)
 	if r == nil {
-		return
+		return nil
 	}
 	h := r.seed
 	for i := 0; i < len(path); i++ {
@@ -158,6 +158,26 @@ func visit(ctx context.Context, path string, ids []int) {
 	r.ran[path]++
 	r.deliv[path] = append(r.deliv[path], ids...)
 	r.mu.Unlock()
+	// a node marked "rerun" asks for an interrupt the first time it executes in the session
+	// (after having recorded what it received in this call)
+	if s, _ := ctx.Value(sessKey{}).(*session); s != nil {
+		s.mu.Lock()
+		defer s.mu.Unlock()
+		if s.rerun[path] > 0 {
+			s.rerun[path]--
+			return compose.InterruptAndRerun
+		}
+	}
+	return nil
+}
+
+// session: state of a resume case that outlives one call (the checkpoint store, the nodes
+// that still have to ask for a rerun)
+type sessKey struct{}
+
+type session struct {
+	mu    sync.Mutex
+	rerun map[string]int
 }
 
 func mkHandler(id int) callbacks.Handler {
@@ -201,53 +221,69 @@ func sortedCopy(a []int) []int {
 type fakeModel struct{ path string }
 
 func (m *fakeModel) Generate(ctx context.Context, in []*schema.Message, opts ...model.Option) (*schema.Message, error) {
-	visit(ctx, m.path, model.GetImplSpecificOptions(&sink{}, opts...).ids)
+	if err := visit(ctx, m.path, model.GetImplSpecificOptions(&sink{}, opts...).ids); err != nil {
+		return nil, err
+	}
 	return schema.AssistantMessage("m", nil), nil
 }
 func (m *fakeModel) Stream(ctx context.Context, in []*schema.Message, opts ...model.Option) (*schema.StreamReader[*schema.Message], error) {
-	visit(ctx, m.path, model.GetImplSpecificOptions(&sink{}, opts...).ids)
+	if err := visit(ctx, m.path, model.GetImplSpecificOptions(&sink{}, opts...).ids); err != nil {
+		return nil, err
+	}
 	return schema.StreamReaderFromArray([]*schema.Message{schema.AssistantMessage("m", nil)}), nil
 }
 
 type fakeRetriever struct{ path string }
 
 func (m *fakeRetriever) Retrieve(ctx context.Context, q string, opts ...retriever.Option) ([]*schema.Document, error) {
-	visit(ctx, m.path, retriever.GetImplSpecificOptions(&sink{}, opts...).ids)
+	if err := visit(ctx, m.path, retriever.GetImplSpecificOptions(&sink{}, opts...).ids); err != nil {
+		return nil, err
+	}
 	return []*schema.Document{{ID: "d"}}, nil
 }
 
 type fakeEmbedder struct{ path string }
 
 func (m *fakeEmbedder) EmbedStrings(ctx context.Context, texts []string, opts ...embedding.Option) ([][]float64, error) {
-	visit(ctx, m.path, embedding.GetImplSpecificOptions(&sink{}, opts...).ids)
+	if err := visit(ctx, m.path, embedding.GetImplSpecificOptions(&sink{}, opts...).ids); err != nil {
+		return nil, err
+	}
 	return [][]float64{{1}}, nil
 }
 
 type fakeTemplate struct{ path string }
 
 func (m *fakeTemplate) Format(ctx context.Context, vs map[string]any, opts ...prompt.Option) ([]*schema.Message, error) {
-	visit(ctx, m.path, prompt.GetImplSpecificOptions(&sink{}, opts...).ids)
+	if err := visit(ctx, m.path, prompt.GetImplSpecificOptions(&sink{}, opts...).ids); err != nil {
+		return nil, err
+	}
 	return []*schema.Message{schema.UserMessage("t")}, nil
 }
 
 type fakeIndexer struct{ path string }
 
 func (m *fakeIndexer) Store(ctx context.Context, docs []*schema.Document, opts ...indexer.Option) ([]string, error) {
-	visit(ctx, m.path, indexer.GetImplSpecificOptions(&sink{}, opts...).ids)
+	if err := visit(ctx, m.path, indexer.GetImplSpecificOptions(&sink{}, opts...).ids); err != nil {
+		return nil, err
+	}
 	return []string{"i"}, nil
 }
 
 type fakeLoader struct{ path string }
 
 func (m *fakeLoader) Load(ctx context.Context, src document.Source, opts ...document.LoaderOption) ([]*schema.Document, error) {
-	visit(ctx, m.path, document.GetLoaderImplSpecificOptions(&sink{}, opts...).ids)
+	if err := visit(ctx, m.path, document.GetLoaderImplSpecificOptions(&sink{}, opts...).ids); err != nil {
+		return nil, err
+	}
 	return []*schema.Document{{ID: "l"}}, nil
 }
 
 type fakeTransformer struct{ path string }
 
 func (m *fakeTransformer) Transform(ctx context.Context, src []*schema.Document, opts ...document.TransformerOption) ([]*schema.Document, error) {
-	visit(ctx, m.path, document.GetTransformerImplSpecificOptions(&sink{}, opts...).ids)
+	if err := visit(ctx, m.path, document.GetTransformerImplSpecificOptions(&sink{}, opts...).ids); err != nil {
+		return nil, err
+	}
 	return src, nil
 }
 
@@ -258,7 +294,9 @@ func (t *fakeTool) Info(ctx context.Context) (*schema.ToolInfo, error) {
 	return &schema.ToolInfo{Name: "faketool", Desc: "records its options"}, nil
 }
 func (t *fakeTool) InvokableRun(ctx context.Context, args string, opts ...tool.Option) (string, error) {
-	visit(ctx, t.path, tool.GetImplSpecificOptions(&sink{}, opts...).ids)
+	if err := visit(ctx, t.path, tool.GetImplSpecificOptions(&sink{}, opts...).ids); err != nil {
+		return "", err
+	}
 	return "ok", nil
 }
 
@@ -278,16 +316,20 @@ func idsB(opts []optB) []int {
 }
 
 // addComp adds the fake component of option type ty under key to g and returns the value the
-// node expects as input.
+// node expects as input, which it takes from the entry of the input map named by its node path
+// (nil: a lambda, which takes the whole map).
 func addComp(ctx context.Context, g *compose.Graph[map[string]any, map[string]any], key, path string, ty int) (any, error) {
-	o := []compose.GraphAddNodeOpt{compose.WithNodeName(path), compose.WithInputKey(key), compose.WithOutputKey(key)}
+	o := []compose.GraphAddNodeOpt{compose.WithNodeName(path), compose.WithInputKey(path), compose.WithOutputKey(key)}
+	lo := []compose.GraphAddNodeOpt{compose.WithNodeName(path), compose.WithOutputKey(key)}
 	switch ty {
 	case tyNone:
-		l := compose.InvokableLambda(func(ctx context.Context, in string) (string, error) {
-			visit(ctx, path, nil)
-			return in, nil
+		l := compose.InvokableLambda(func(ctx context.Context, in map[string]any) (string, error) {
+			if err := visit(ctx, path, nil); err != nil {
+				return "", err
+			}
+			return "x", nil
 		})
-		return "x", g.AddLambdaNode(key, l, o...)
+		return nil, g.AddLambdaNode(key, l, lo...)
 	case tyModel:
 		return []*schema.Message{schema.UserMessage("q")}, g.AddChatModelNode(key, &fakeModel{path}, o...)
 	case tyRetriever:
@@ -304,17 +346,21 @@ func addComp(ctx context.Context, g *compose.Graph[map[string]any, map[string]an
 		msg := schema.AssistantMessage("", []schema.ToolCall{{ID: "c1", Function: schema.FunctionCall{Name: "faketool", Arguments: "{}"}}})
 		return msg, g.AddToolsNode(key, tn, o...)
 	case tyLambdaA:
-		l := compose.InvokableLambdaWithOption(func(ctx context.Context, in string, opts ...optA) (string, error) {
-			visit(ctx, path, idsA(opts))
-			return in, nil
+		l := compose.InvokableLambdaWithOption(func(ctx context.Context, in map[string]any, opts ...optA) (string, error) {
+			if err := visit(ctx, path, idsA(opts)); err != nil {
+				return "", err
+			}
+			return "x", nil
 		})
-		return "x", g.AddLambdaNode(key, l, o...)
+		return nil, g.AddLambdaNode(key, l, lo...)
 	case tyLambdaB:
-		l := compose.InvokableLambdaWithOption(func(ctx context.Context, in string, opts ...optB) (string, error) {
-			visit(ctx, path, idsB(opts))
-			return in, nil
+		l := compose.InvokableLambdaWithOption(func(ctx context.Context, in map[string]any, opts ...optB) (string, error) {
+			if err := visit(ctx, path, idsB(opts)); err != nil {
+				return "", err
+			}
+			return "x", nil
 		})
-		return "x", g.AddLambdaNode(key, l, o...)
+		return nil, g.AddLambdaNode(key, l, lo...)
 	case tyIndexer:
 		return []*schema.Document{{ID: "d"}}, g.AddIndexerNode(key, &fakeIndexer{path}, o...)
 	case tyLoader:
